@@ -114,6 +114,8 @@ impl Walrus {
 
         // Important: release the per-column lock; we'll reacquire each iteration
         drop(info);
+        #[cfg(walrus_verif)]
+        crate::wal::verif::yield_point("rn_hyd");
 
         loop {
             // Reacquire column lock at the start of each iteration
@@ -137,6 +139,11 @@ impl Walrus {
                     BlockStateTracker::set_checkpointed_true(block.id as usize);
                     info.cur_block_idx += 1;
                     info.cur_block_offset = 0;
+                    #[cfg(walrus_verif)]
+                    {
+                        drop(info);
+                        crate::wal::verif::yield_point("rn_adv");
+                    }
                     continue;
                 }
 
@@ -156,11 +163,17 @@ impl Walrus {
 
                         // Drop the column lock before touching the index to avoid lock inversion
                         drop(info);
+                        #[cfg(walrus_verif)]
+                        if checkpoint {
+                            crate::wal::verif::yield_point("rn_s_commit");
+                        }
                         if checkpoint {
                             if let Some((idx_val, off_val)) = maybe_persist {
                                 if let Ok(mut idx_guard) = self.read_offset_index.write() {
                                     let _ = idx_guard.set(col_name.to_string(), idx_val, off_val);
                                 }
+                                #[cfg(walrus_verif)]
+                                crate::wal::verif::yield_point("rn_s_idx");
                             }
                         }
 
@@ -191,6 +204,8 @@ impl Walrus {
             // Tail path
             let tail_snapshot = (info.tail_block_id, info.tail_offset);
             drop(info);
+            #[cfg(walrus_verif)]
+            crate::wal::verif::yield_point("rn_t_snap");
 
             let writer_arc = {
                 let map = self.writers.read().map_err(|_| {
@@ -202,6 +217,8 @@ impl Walrus {
                 }
             };
             let (active_block, written) = writer_arc.snapshot_block()?;
+            #[cfg(walrus_verif)]
+            crate::wal::verif::yield_point("rn_t_wsnap");
 
             // If persisted tail points to a different block and that block is now sealed in chain, fold it
             // Reacquire column lock for folding/rebasing decisions
@@ -269,6 +286,8 @@ impl Walrus {
                 }
             }
             drop(info);
+            #[cfg(walrus_verif)]
+            crate::wal::verif::yield_point("rn_t_init");
 
             // Choose the best known tail offset: prefer in-memory snapshot for current active block
             let (tail_block_id, mut tail_off) = match persisted_tail {
@@ -308,11 +327,17 @@ impl Walrus {
                             };
                         }
                         drop(info);
+                        #[cfg(walrus_verif)]
+                        if checkpoint {
+                            crate::wal::verif::yield_point("rn_t_commit");
+                        }
                         if checkpoint {
                             if let Some((idx_val, off_val)) = maybe_persist {
                                 if let Ok(mut idx_guard) = self.read_offset_index.write() {
                                     let _ = idx_guard.set(col_name.to_string(), idx_val, off_val);
                                 }
+                                #[cfg(walrus_verif)]
+                                crate::wal::verif::yield_point("rn_t_idx");
                             }
                         }
 
@@ -411,6 +436,8 @@ impl Walrus {
             }
         };
 
+        #[cfg(walrus_verif)]
+        crate::wal::verif::yield_point("br_wsnap");
         // 1) Prepare state (Chain + Position)
         let mut _held_arc: Option<Arc<RwLock<ColReaderInfo>>> = None;
 
@@ -888,6 +915,8 @@ impl Walrus {
         if !hold_lock_during_io && info_guard.is_some() {
             // Release lock for AtLeastOnce before IO
             drop(info_guard.take().unwrap());
+            #[cfg(walrus_verif)]
+            crate::wal::verif::yield_point("br_unlock");
         }
 
         // 3) Read ranges via io_uring (FD backend) or mmap
@@ -1200,6 +1229,10 @@ impl Walrus {
                 }
             }
 
+            #[cfg(walrus_verif)]
+            if checkpoint && start_offset.is_none() {
+                crate::wal::verif::yield_point("br_commit");
+            }
             // Commit to index
             if checkpoint {
                 match target {
@@ -1207,11 +1240,15 @@ impl Walrus {
                         if let Ok(mut idx_guard) = self.read_offset_index.write() {
                             let _ = idx_guard.set(col_name.to_string(), blk_id | TAIL_FLAG, off);
                         }
+                        #[cfg(walrus_verif)]
+                        crate::wal::verif::yield_point("br_idx");
                     }
                     PersistTarget::Sealed { idx, off } => {
                         if let Ok(mut idx_guard) = self.read_offset_index.write() {
                             let _ = idx_guard.set(col_name.to_string(), idx, off);
                         }
+                        #[cfg(walrus_verif)]
+                        crate::wal::verif::yield_point("br_idx");
                     }
                     PersistTarget::None => {}
                 }
